@@ -271,3 +271,23 @@ pub fn c20_columns_narrower_read_item() {
     cover!(true, "end reached");
     sym::forget((a, other));
 }
+
+// @h prop=C20 tier=quick kind=proof inst="SliceRegion<MirrorRegion<u8>>: a read item taken from the MIDDLE of its source region" bounds="source holds items of 2, 2, 1 symbolic bytes; the middle one is pushed as a region-backed read item onto a region holding one item" desc="the read-item form copies exactly the item's own elements (neither its predecessors' nor its successors'): same index and bytes as the slice form"
+#[cfg_attr(kani, kani::proof, kani::unwind(12))]
+pub fn c20_slice_read_item_from_middle() {
+    let p = sym::bytes::<2>();
+    let q = sym::bytes::<2>();
+    let r = sym::bytes::<1>();
+    let mut src = SR::default();
+    let _ = src.push(p.as_slice());
+    let iq = src.push(q.as_slice());
+    let _ = src.push(r.as_slice());
+    let mut a = SR::default();
+    let mut b = SR::default();
+    let _ = step!(a, b, p.as_slice(), p.as_slice());
+    let i = step!(a, b, src.index(iq), q.as_slice());
+    assert!(i == (2, 4), "C20: a read item from the middle of its region is copied with the wrong extent");
+    assert!(a.index(i).len() == 2 && a.index(i).get(0) == q[0] && a.index(i).get(1) == q[1], "C20: a read item from the middle of its region reads differently");
+    cover!(true, "end reached");
+    sym::forget((a, b, src));
+}
